@@ -35,7 +35,7 @@ ASSUMPTIONS = [
     "USE_JIT off (library runs as plain Python)",
 ]
 BUDGET = {
-    "quick": dict(cases=1000, shards=4, timeout=1800),
+    "quick": dict(cases=2000, shards=4, timeout=1800),
     "thorough": dict(cases=6000, shards=16, timeout=5400),
 }
 ER_CLASSES = [c for c in G.CLASSES if c != "nondyadic"] + ["sub_eq_insdel", "sub_gt_insdel"]
